@@ -352,6 +352,42 @@ pub fn run(ctx: &RunCtx) -> i32 {
         judge_overlap(r, "C09", &rt, prt.as_ref(), &auth_cfg(&secrets, HostCfg::None), &kinds, &reqs, g.u64());
     });
     total.merge(over);
+    // forms whose fields (not the file) are large: 70 KiB, just over 1 MiB, over 2 MiB - cut at and next to every power of
+    // two and at random places (buffers that grow, limits that are only looked at between frames)
+    let sizes = [70 * 1024usize, (1 << 20) + 5000, (2 << 20) + 70_000];
+    let huge = par_run(ctx.workers, sizes.len() as u64 * 4, |j, r| {
+        let rt = new_runtime();
+        let mut g = Rng::new(derive_seed(ctx.seed, "C09-huge-fields", j));
+        let (mut form, _, _) = c10::gen_form_pub(&mut g, &secrets);
+        let size = sizes[(j % sizes.len() as u64) as usize];
+        let filler: String = (0..size).map(|i| char::from(b'a' + (i % 23) as u8)).collect();
+        form.fields.insert(form.fields.len() / 2, ("x-ignore-filler".into(), filler));
+        let req = form.request(None);
+        let len = req.body.len();
+        let mut base = Case { kind: format!("post-form/fields-of-{}KiB", size / 1024), req, framing: Framing::default(), partition_class: "reference".into(), schedule_class: "never-pending".into(), secrets: secrets.clone(), auth: true };
+        let reference = observe(&rt, &base, Framing::default());
+        r.observe("huge_form_reference_outcomes", format!("{} KiB of fields: status {} {:?}", size / 1024, reference.status, reference.code));
+        let mut cuts: Vec<usize> = Vec::new();
+        let mut p = 1024usize;
+        while p < len {
+            cuts.extend([p - 1, p, p + 1]);
+            p *= 2;
+        }
+        cuts.extend((0..10).map(|_| 1 + g.usize_below(len - 1)));
+        cuts.extend([len - 1, len - 2, len - 50]);
+        let lane = j / sizes.len() as u64;
+        for (i, c) in cuts.into_iter().enumerate() {
+            if i as u64 % 4 != lane || c == 0 || c >= len {
+                continue;
+            }
+            let three = g.chance(1, 3);
+            base.framing = Framing { cuts: if three { vec![c / 2, c - c / 2] } else { vec![c] }, pendings: vec![g.below(2) as u8; 3], pending_at_end: 0, immediate_wake: true, error_at: None, stall_at: None, error_kind: None };
+            base.partition_class = if three { "three-frames/large-fields" } else { "two-frames/large-fields" }.into();
+            base.schedule_class = "random".into();
+            judge(&rt, r, &base, Some(&reference));
+        }
+    });
+    total.merge(huge);
     finish(ctx, &meta, &total)
 }
 
